@@ -85,8 +85,11 @@ example : (do
     some (bint (Scanline.newEmpty (-3)) ⟨⟨-5, -4⟩, ⟨-5, -1⟩⟩) := by decide
 
 /-- A one-pixel polyline: `draw` is one `draw_iter` call with `points()`, and `pixels()` is
-`points()` (the `Thin` arm of `StyledPixelsIterator`); the union-of-segments claim about
-`points()` itself is `EG.C19.polyline_points` (Props/C19/Polyline.lean). -/
+`points()` (the `Thin` arm of `StyledPixelsIterator`) - definitional, these are the `1 =>` arms of
+the model as of the source. The picture on both targets and the `translate` field:
+`EG.C19.one_pixel_polyline_picture`, `one_pixel_polyline_picture_translate`; the union-of-segments
+claim about `points()` itself: `EG.C19.polyline_points`, `polyline_point_set`
+(Props/C19/Polyline.lean). -/
 theorem one_pixel_polyline_is_points (pl : Polyline) :
     pixels pl 1 = some (Polyline.points pl) ∧
     (match drawStyled pl 1 with | some (.drawIter pts) => pts = Polyline.points pl | _ => False) :=
